@@ -80,7 +80,7 @@ func campaign(seed uint64, thorough bool) []batch {
 			continue
 		}
 		muts := append([]string{}, ep.muts...)
-		if thorough {
+		if thorough && !ep.fixedMuts {
 			muts = append(muts, "subst-all")
 		}
 		chunk := 500
